@@ -46,6 +46,7 @@ structure WSt where
   buf : List Op        -- WriteBuffer.entries
   bufSize : Nat        -- WriteBuffer.currentSize
   bs : Nat             -- maxBlockSize
+  dirty : Bool := false  -- (repaired writer) a failed block could not be cut off yet
   deriving DecidableEq, Repr
 
 def createOps (p : Path) (nl : Nat) : List FsOp :=
